@@ -127,6 +127,25 @@ CHECKS.update({
              'points, thorough runs all.'),
 })
 
+CHECKS.update({
+    'C20': dict(
+        engine='p2p',
+        technique='TLA+ specs SecretConn.tla, MConn.tla, Admission.tla exhaustively model-checked with TLC; every edge of the SecretConn and '
+                  'Admission state graphs plus simulated behaviours replayed on real SecretConnection pairs (real-crypto man in the middle), '
+                  'real MConnection pairs and a real Switch assembled by prepareP2P/assembleStateMachine (model-based testing), outcome and '
+                  'bytes compared after each step',
+        level=('model_checking',
+               'TLC proves StreamIntegrity, TamperDetected and PeerIdentityIsChallengeSigner (all MITM handshake strategies; <=4 frames, <=2 '
+               'frame-level tamperings, write sizes {0,1,1023,1024,1025,3000} x read buffers {1,7,1024,4096}), PerChannelOrderAndIntegrity, '
+               'OverCapacityIsError and Complete (2 channels, <=4 messages, sizes 0..capacity+1) and AdmissionSound/Complete for every attempt '
+               'in every reachable validator-set, refuse-list and flag state. The real code is forced through every transition of the small '
+               'graphs and random behaviours of the large ones, with delivered bytes, error classes, handshake identities, per-channel '
+               'message sequences and admission outcomes compared, plus independent byte-stream and admission oracles.', 'DESIGN.md §4 C20'),
+        note='Trusted: TLC, p2putil independent handshake implementation, nacl/ed25519. Crypto is symbolic in the spec. SecretConnection.Read '
+             'does not latch errors; the consumer (MConnection, checked) ends the connection. MConn interleaving is compared through '
+             'invariants on the real outcome. Timing-dependent failures are kept only if they recur in 12 isolated re-runs.'),
+})
+
 NOT_YET = 'not yet built: the specification for this property is planned in DESIGN.md §4 but no check is registered yet'
 NOT_APPLICABLE = {
     'C18': 'codec round-trip/robustness/injectivity are statements about pure functions over byte strings; there is no '
